@@ -25,10 +25,15 @@ vars == <<l, stk>>
 NoMesh == [nv |-> -1]
 Init == l = 1 /\ stk = <<>>
 
+\* premise of the tessellation parser, from logged data (fixed point, 1e-6): no finite Voronoi ridge is
+\* vertical after the parser's rounding to 3 decimals (division by zero in line_eq: C19's finding) and no
+\* two Voronoi vertices round to the same point (a mesh edge from a vertex to itself)
+TessPremiseFails(e) == Has(e, "min_dx") /\ (e.min_dx < 1000 \/ e.min_sep < 2000)
 DoMesh(e) ==
   /\ e.ev = "Mesh"
-  /\ LET fails == IF e.raised # "" THEN {"C09.raised"} ELSE Consistent(e.mesh)
-     IN  EmitV(e, fails, {}, {"C09.consistent"}, {}, FALSE)
+  /\ LET rej   == e.raised # "" /\ TessPremiseFails(e)
+         fails == IF rej THEN {} ELSE IF e.raised # "" THEN {"C09.raised"} ELSE Consistent(e.mesh)
+     IN  EmitV(e, fails, {}, {"C09.consistent"}, {}, rej)
   /\ stk' = <<IF e.raised # "" THEN NoMesh ELSE e.mesh>>
 
 \* two contractible two-point interfaces of mm share an end
